@@ -1,6 +1,6 @@
 """Implementation side of C14: the answers of a repository with and without commit-graph, multi-pack-index and bitmaps,
 fresh, stale (history continued, packs added, repacked, pruned) and mismatched (copied from another repository)."""
-import glob, hashlib, os, random, shutil, subprocess, tempfile
+import io, glob, hashlib, os, random, shutil, subprocess, tempfile
 import impl_C10 as G
 from dulwich.gc import find_reachable_objects, garbage_collect
 from dulwich.graph import can_fast_forward, find_merge_base
@@ -333,4 +333,107 @@ def graph_lcas(req):
         shutil.rmtree(base, ignore_errors=True)
 
 
-HANDLERS = {"scenario": scenario, "graph_lcas": graph_lcas}
+def _parse_cg(data):
+    """an independent reader of the chunks of a commit-graph file: ids, the two parent slots of every row, the extra edge list"""
+    import struct
+    assert data[:4] == b"CGPH", data[:4]
+    nchunks = data[6]
+    toc = []
+    for i in range(nchunks + 1):
+        cid, off = data[8 + 12 * i:12 + 12 * i], struct.unpack(">Q", data[12 + 12 * i:20 + 12 * i])[0]
+        toc.append((cid, off))
+    chunks = {}
+    for (cid, off), (_, nxt) in zip(toc, toc[1:]):
+        chunks[cid] = data[off:nxt]
+    oids = [chunks[b"OIDL"][i:i + 20] for i in range(0, len(chunks[b"OIDL"]), 20)]
+    rows = []
+    cd = chunks[b"CDAT"]
+    for i in range(len(oids)):
+        rows.append(struct.unpack(">LL", cd[36 * i + 20:36 * i + 28]))
+    ed = chunks.get(b"EDGE", b"")
+    edges = [struct.unpack(">L", ed[i:i + 4])[0] for i in range(0, len(ed), 4)]
+    return oids, rows, edges
+
+
+def _fmt_cg(rows, edges):
+    return ";".join("%d,%d" % r for r in rows), ",".join(map(str, edges)) or "_"
+
+
+def cg_codec(req):
+    """parents -> commit-graph bytes (dulwich writer) -> slots and edges (independent parser) and parents (dulwich reader)"""
+    from dulwich.commit_graph import CommitGraph, CommitGraphEntry, read_commit_graph
+    spec = req["commits"]
+    ids = [b"%040x" % (0x1000 + 7 * i) for i in range(len(spec))]
+    absent = b"ee" * 20
+    g = CommitGraph()
+    for i, ps in enumerate(spec):
+        g.entries.append(CommitGraphEntry(commit_id=ids[i], tree_id=b"%040x" % (0x77000 + i), parents=[absent if p == "x" else ids[p] for p in ps], generation=1, commit_time=1700000000 + i))
+    f = io.BytesIO()
+    try:
+        g.write_to_file(f)
+    except Exception as e:  # noqa: BLE001
+        return {"write_exc": type(e).__name__ + ":" + str(e)[:100]}
+    data = f.getvalue()
+    oids, rows, edges = _parse_cg(data)
+    res = {"rows": _fmt_cg(rows, edges)[0], "edges": _fmt_cg(rows, edges)[1], "oids_sorted": [o.hex().encode() for o in oids] == ids}
+    try:
+        g2 = CommitGraph.from_file(io.BytesIO(data))
+        pos = {c: i for i, c in enumerate(ids)}
+        back = []
+        for c in ids:
+            ps = g2.get_parents(c)
+            back.append("?" if ps is None else ".".join(str(pos.get(p, "x")) for p in ps) or "_")
+        res["read"] = ";".join(back)
+    except Exception as e:  # noqa: BLE001
+        res["read"] = "exc:" + type(e).__name__ + ":" + str(e)[:80]
+    return res
+
+
+def cg_git(req):
+    """a history with octopus merges written as a commit-graph by C git: slots and edges (independent parser), parents as dulwich reads them"""
+    from dulwich.commit_graph import read_commit_graph
+    base = tempfile.mkdtemp(prefix="verif-c14c-", dir=os.environ.get("VERIF_SCRATCH") or None)
+    try:
+        r = Repo.init_bare(os.path.join(base, "r.git"), mkdir=True)
+        from dulwich.objects import Tree
+        t = Tree()
+        r.object_store.add_object(t)
+        cs = []
+        for i, ps in enumerate(req["commits"]):
+            c = Commit()
+            c.tree = t.id
+            c.parents = [cs[p].id for p in ps]
+            c.author = c.committer = b"a <a@x>"
+            c.author_time = c.commit_time = 1700000000 + i
+            c.author_timezone = c.commit_timezone = 0
+            c.message = b"c%d %d" % (i, req.get("seed", 0))
+            r.object_store.add_object(c)
+            cs.append(c)
+        for i, c in enumerate(cs):
+            r.refs[b"refs/heads/b%d" % i] = c.id
+        path = r.path
+        r.close()
+        p = subprocess.run(["git", "--git-dir", path, "commit-graph", "write", "--reachable"], env=GIT_ENV, capture_output=True)
+        if p.returncode:
+            return {"git_err": p.stderr.decode("latin1")[-200:]}
+        fn = os.path.join(path, "objects", "info", "commit-graph")
+        data = open(fn, "rb").read()
+        oids, rows, edges = _parse_cg(data)
+        pos = {o.hex().encode(): i for i, o in enumerate(oids)}
+        res = {"rows": _fmt_cg(rows, edges)[0], "edges": _fmt_cg(rows, edges)[1]}
+        g = read_commit_graph(fn)
+        back, truth = [], []
+        byid = {c.id: c for c in cs}
+        for o in oids:
+            hx_ = o.hex().encode()
+            ps = g.get_parents(hx_)
+            back.append("?" if ps is None else ".".join(str(pos.get(q, "x")) for q in ps) or "_")
+            truth.append(".".join(str(pos[q]) for q in byid[hx_].parents) or "_")
+        res["read"] = ";".join(back)
+        res["truth"] = ";".join(truth)
+        return res
+    finally:
+        shutil.rmtree(base, ignore_errors=True)
+
+
+HANDLERS = {"scenario": scenario, "graph_lcas": graph_lcas, "cg_codec": cg_codec, "cg_git": cg_git}
